@@ -30,6 +30,9 @@ public:
         Plan p;
         Prng r(derive(seed, "c10"));
         drawConformingProfile(p, r);
+        if (r.chance(0.15)) {
+            p.knobs[QStringLiteral("redirects")] = r.range(1, 2);   // see-other-host on the first connection(s)
+        }
         p.ops.append(mkop(QStringLiteral("connect")));
         int attempts = (int)r.range(1, 3);
         for (int a = 0; a < attempts; ++a) {
@@ -198,8 +201,16 @@ public:
                         w.probe("cut_between_auth_and_session");
                     }
                     QString where;
+                    if (w.connectPending) {
+                        // the TCP connection of this attempt (e.g. the one following a redirect) does not exist yet
+                        w.resolveConnect(false);
+                        where = QStringLiteral("connect_refused");
+                    } else
                     switch (kind) {
                     case 0:
+                        if (!w.server->current()) {
+                            break;   // the server side of this connection is already gone (e.g. it redirected): nothing to cut
+                        }
                         w.serverClose();
                         w.pump(nullptr);
                         where = QStringLiteral("server_close");
@@ -227,6 +238,9 @@ public:
                         where = QStringLiteral("abortive_cut");
                         break;
                     case 4:
+                        if (!w.server->current()) {
+                            break;
+                        }
                         // the server ends the stream cleanly and waits for the client to close
                         if (auto *c = w.server->current()) {
                             w.fault("server_stream_end");
@@ -240,8 +254,10 @@ public:
                     }
                     settle();
                     onStepInvariants();
-                    if (w.connectPending) {
-                        // a reconnect started synchronously (next SRV address / redirect): not the case here
+                    if (where.isEmpty()) {
+                        w.probe("nothing_to_cut");
+                    } else if (w.connectPending) {
+                        // a reconnect started synchronously (redirect in progress)
                         w.probe("reconnect_started_synchronously");
                     } else {
                         checkDisconnectedState(where + (established ? QStringLiteral(":session") : QStringLiteral(":negotiation")));
@@ -309,6 +325,9 @@ public:
                                         .arg((int)w.client->state()).arg(w.client->isAuthenticated()).arg(w.links.size()).arg(w.connectTargets.join(QLatin1Char(' '))));
                     } else {
                         w.probe("final_session_established");
+                        if (w.connectTargets.last().startsWith(QLatin1String("alt.sim"))) {
+                            w.probe("final_session_after_redirect");
+                        }
                         if (auto *c = w.server->current()) {
                             if (c->sm && c->sm->attached && w.client->streamManagementState() == QXmppClient::ResumedStream) {
                                 w.probe("final_session_is_resumption");
